@@ -254,7 +254,14 @@ func (u *Unit) selectMem(st *State, m, addr Term, so Sort, depth int) Term {
 			b = b.Args[0]
 		}
 		if _, ok := st.Derivs[b.A]; ok && b.Op == "" {
-			u.selectMem(st, b, addr, so, depth+1)
+			inner := u.selectMem(st, b, addr, so, depth+1)
+			// when the derivation says syntactically that addr was not touched, the value
+			// comes back as a select on an older memory and no definition was emitted: the
+			// solver, which resolves the store chain itself, still needs to know what the
+			// memory underneath holds at addr
+			if raw := App("select", so, b, addr); raw.String() != inner.String() {
+				u.Axiom(Eq(raw, inner))
+			}
 		}
 	}
 	return App("select", so, m, addr)
